@@ -1,5 +1,6 @@
 import OV.Model.C13Export
 import OV.Model.C13Roundtrip
+import OV.Model.C13Types
 import OV.Drivers.Loop
 /-! Line-protocol driver for C13.  Every string is sent hex-encoded with an `x` prefix (`x` = "").
 
@@ -165,6 +166,29 @@ def handleStraight (o : Opts) (ts : List String) : Option String :=
     else pure "0"
   | _ => some "0"
 
+/-- `type <dtype> <shape>`; shape: `-` (no shape field), `e` (rank 0) or `,`-joined dims `i<n>` | `s<hex name>` | `u`
+    → `<annotation text> | <dtype> <shape after evaluating it and converting back>` -/
+def handleType (dt : String) (sh : String) : String :=
+  let parseDim (t : String) : Option OV.C13T.Dim :=
+    if t == "u" then some .unk
+    else if t.startsWith "i" then (t.drop 1).toString.toNat?.map .val
+    else if t.startsWith "s" then (unhex ("x" ++ (t.drop 1).toString)).map .sym
+    else none
+  let shape : Option (Option (List OV.C13T.Dim)) :=
+    if sh == "-" then some none
+    else if sh == "e" then some (some [])
+    else ((sh.splitOn ",").mapM parseDim).map some
+  match dt.toNat?, shape with
+  | some d, some s =>
+    (match OV.C13T.toAnn ⟨d, s⟩ with
+     | none => "ERR:noname"
+     | some a =>
+       OV.C13T.renderAnn a ++ " | " ++
+         (match OV.C13T.evalAnn a with
+          | some t => Nat.repr t.dtype ++ " " ++ OV.C13T.showShape t.shape
+          | none => "ERR:noclass"))
+  | _, _ => "bad-op"
+
 def handle (args : List String) : String :=
   match args with
   | ["cleanup", s] =>
@@ -180,6 +204,7 @@ def handle (args : List String) : String :=
     (match parseOpts os, names.mapM unhex with
      | some o, some ns => comma ((renameTable o ns).map (·.2))
      | _, _ => "bad-op")
+  | ["type", dt, sh] => handleType dt sh
   | "straight" :: os :: _ :: rest =>
     (match parseOpts os with
      | some o => (handleStraight o rest).getD "bad-op"
